@@ -30,7 +30,8 @@ def scroll_speed(m: Map, override_bpm: float = None) -> pd.Series:
             ignore_index=True,
         )
         # Sort by Offset (due to head and tail out of order)
-        .sort_values("offset")
+        # Stable, so that a head/tail on a bpm's offset stays after that bpm
+        .sort_values("offset", kind="stable")
         # Assume Head Tail same bpm as nearest
         .ffill()
         .bfill()
